@@ -85,6 +85,11 @@ impl Regions {
         let file_len = self.file_len()?;
         if file_len < len {
             self.file.set_len(len as u64)?;
+            #[cfg(feature = "verif")]
+            crate::verif::emit(&crate::verif::Event::SetLen {
+                file: crate::verif::FileId::Regions,
+                len,
+            });
             self.mmap = create_mmap(&self.file)?;
         }
         Ok(())
@@ -182,11 +187,21 @@ impl Regions {
     /// Schedules metadata writeback. Caller must follow with `sync_data()`.
     pub(crate) fn flush(&self) -> Result<()> {
         self.mmap.flush_async()?;
+        #[cfg(feature = "verif")]
+        crate::verif::emit(&crate::verif::Event::FlushAsync {
+            file: crate::verif::FileId::Regions,
+            off: 0,
+            len: self.mmap.len(),
+        });
         Ok(())
     }
 
     pub(crate) fn sync_data(&self) -> Result<()> {
         self.file.sync_data()?;
+        #[cfg(feature = "verif")]
+        crate::verif::emit(&crate::verif::Event::Sync {
+            file: crate::verif::FileId::Regions,
+        });
         Ok(())
     }
 
@@ -194,6 +209,12 @@ impl Regions {
         debug_assert_eq!(data.len(), SIZE_OF_REGION_METADATA);
         let offset = index * SIZE_OF_REGION_METADATA;
         write_to_mmap(&self.mmap, offset, data);
+        #[cfg(feature = "verif")]
+        crate::verif::emit(&crate::verif::Event::MmapWrite {
+            file: crate::verif::FileId::Regions,
+            off: offset,
+            bytes: data,
+        });
     }
 
     #[inline]
